@@ -313,3 +313,45 @@ def run_map_ext(run):
     finally:
         pool.terminate()
         pool.join()
+
+
+def replay_cases(run, drv, cases, stream="map(replay)"):
+    """re-run recorded map cases (corpus entries, or the failures of a replay file): correspondence + oracle"""
+    import torch.multiprocessing as mp
+    torch.set_num_threads(1)
+    cases = [c for c in cases if isinstance(c, dict) and "shape" in c and "mask" in c]
+    if not cases:
+        return 0
+    ctx = mp.get_context("fork")
+    pools = {}
+    scratch_root = BUILD / "tmp" / f"c12r_{run.seed}_{run.tier}"
+    shutil.rmtree(scratch_root, ignore_errors=True)
+    scratch_root.mkdir(parents=True, exist_ok=True)
+    try:
+        answers = [parse_sx(a) for a in ask_batched(drv, [model_req(c) for c in cases])]
+        for i, (c, mans) in enumerate(zip(cases, answers)):
+            method = c.get("start_method", "fork")
+            if c["pool"] == "shared-pool" and (method, c["w"]) not in pools:
+                pools[(method, c["w"])] = mp.get_context(method).Pool(c["w"])
+            ans, inp, out, x_full = run_impl(c, pools.get((method, c["w"])), scratch_root / f"r{i}")
+            run.case(("map-replay", i, str(c)))
+            model = canon_model(mans)
+            n = c["shape"][c["d"]]
+            if n == 0:
+                norm = lambda a: ["ok", "norows"] if a[0] == "ok" and a[1] in ("none", []) else a[:2]  # noqa: E731
+                if ans[0] == "ok" and ans[1] != "none":
+                    ans = ["ok", [], []]
+                run.corr(stream, c, norm(ans), norm(model))
+                if ans[0] == "err":
+                    run.oracle_fail("map_empty_dim", c, f"raised {ans[2]} on an empty mapped dim", "empty-dim:" + ans[1])
+                else:
+                    run.oracle_ok("map_empty_dim")
+                continue
+            run.corr(stream, c, ans[:2] if ans[0] == "err" else ans, model)
+            oracle(run, c, ans, inp)
+    finally:
+        for p in pools.values():
+            p.terminate()
+            p.join()
+        shutil.rmtree(scratch_root, ignore_errors=True)
+    return len(cases)
